@@ -33,9 +33,9 @@ PID = "C12"
 LEVEL = "fault_enumeration"
 ENGINE = "ctxsim"
 CHUNK = 2
-N_KINDS = 18
+N_KINDS = 19
 GEN_TAKES_INDEX = True
-N_CATALOGUE = 54
+N_CATALOGUE = 57
 REACH = ['mode:catalogue', 'mode:random', 'mode:insertion', 'fault_fired:module.body', 'fault_fired:tc.decorate', 'fault_fired:stdout.write', 'fault_fired:node.flatten', 'inserted_inside_live_context']  # counters (prefixes) that a healthy batch makes non-zero; gaps are reported in the evidence
 BUDGET = {"quick": 45, "thorough": 600}
 RULE = (
@@ -64,7 +64,7 @@ COMPONENTS = {"real": ["jaxtyping", "typeguard", "beartype", "importlib (hook op
 _DIR = None
 _ORIG_CFS = _be.cache_from_source
 KIND_NAMES = ["arr-top", "arr-ctx", "tree-top", "tree-ctx", "call-new", "call-old", "call-none", "call-dc", "decorate",
-              "decorate-gen-old", "decorate-gen-new", "pickle", "hook", "obs-failing-stdout", "tree-nested", "tree-union", "ctx-object-reentered", "tree-nested-structured-misuse"]
+              "decorate-gen-old", "decorate-gen-new", "pickle", "hook", "obs-failing-stdout", "tree-nested", "tree-union", "ctx-object-reentered", "tree-nested-structured-misuse", "switch-toggled-inside-context"]
 
 
 def worker_init():
@@ -225,6 +225,15 @@ def _op_of_kind(kind, r, g, pref, fns):
         val = {"t": "tuple", "c": [{"t": "np", "s": [2], "d": "float32"}, {"t": "np", "s": [3], "d": "float32"}]}
         op = {"op": "tree", "ann": outer, "val": val}
         return [op] if r.random() < 0.5 else [{"op": "ctx", "body": [op], "exit": "ret"}]
+    if name == "switch-toggled-inside-context":
+        # checking is switched off while a context block / a decorated call is open, and on again afterwards
+        off = {"op": "toggle", "item": "jaxtyping_disable", "value": r.choice((True, "1", "true"))}
+        on = {"op": "toggle", "item": "jaxtyping_disable", "value": False}
+        if r.random() < 0.5:
+            return [{"op": "ctx", "body": [arr(p_bad=0.0), off], "exit": "ret"}, on]
+        c = call(fn(r.choice(("new", "none"))))
+        c["body"] = list(c["body"]) + [off]
+        return [c, on]
     if name == "ctx-object-reentered":
         # the program keeps one `ctx = jaxtyped("context")` object and enters it again while it is already entered
         inner = {"op": "ctx", "obj": "o1", "body": [arr(p_bad=0.0)], "exit": "ret" if r.random() < 0.6 else ["raise", "ValueError"]}
@@ -472,6 +481,7 @@ def _variant(scn, plan):
         counts = dict(d.state.counts)
         d.reset_faults({})
         seams.take_output()
+        jaxtyping.config.update("jaxtyping_disable", False)  # (a history cut short by a fault may leave the switch on: C19's business)
         after = battery(d, scn)
     finally:
         ctxsim.keep_exceptions(False)
